@@ -841,6 +841,13 @@ func (s *session) redialForClient(oldConn net.Conn, afterDisconnected bool) bool
 	if s.redialForClientLocked == nil {
 		return false
 	}
+	// A session that is being (or has been) closed locally is never redialed. This is
+	// decided before queueing on the lock: Close holds it while it waits for the calls
+	// in flight, and the caller may be one of them.
+	switch s.getStatus() {
+	case statusActiveClosing, statusActiveClosed:
+		return false
+	}
 	s.lock.Lock()
 	defer s.lock.Unlock()
 	// Avoid repeated calls from write and readDisconnected methods
